@@ -801,10 +801,9 @@ class TrajectoryStore:
             output_store, input_stores, input_stores_pattern, input_stores_index_range
         )
 
-        # Create output directory.
-        os.mkdir(output_store)
-
-        # Collect metadata and check that the field sets match.
+        # Collect metadata and check that the field sets match. (All of the
+        # validation is done before anything is created or moved, so that a
+        # refused merge leaves nothing behind and can simply be retried.)
         store_data = []
         fieldset_names: set[str] | None = None
         index_groups = []
@@ -825,6 +824,9 @@ class TrajectoryStore:
         indexable = all(g is not None for g in index_groups)
         if indexable != any(g is not None for g in index_groups):
             raise ValueError('Either all or none of the input stores must be indexable')
+
+        # Create output directory.
+        os.mkdir(output_store)
 
         # Move input stores to output directory.
         for input_store in input_stores:
